@@ -36,8 +36,11 @@ impl Parser for DenoJsonParser {
         let root = tree.root_node();
         let mut results = Vec::new();
 
-        // Find the root object
-        if let Some(document) = root.child(0)
+        // Find the root object (in a deno.jsonc comments may come before it)
+        let mut cursor = root.walk();
+        if let Some(document) = root
+            .children(&mut cursor)
+            .find(|child| child.kind() != "comment")
             && document.kind() == "object"
         {
             self.extract_imports(document, content, &mut results);
